@@ -92,3 +92,42 @@ m("c01-minus-one-on-small", ["C01"], S, "            kappaVal = self.delta() / s
 m("c01-delta-signed", ["C01"], S, "ans += (sigma - bsig)**2 / nblobs", "ans += (sigma - bsig)**3 / nblobs")
 m("c01-keep-le-zero", ["C01"], S, "        if self.deltaMax() == 0:\n            warning_message(", "        if self.deltaMax() <= 0:\n            warning_message(", kind="keep")
 m("c01-keep-restructure", ["C01"], S, "            if kappaVal > 1.0 and kappaVal < 1.1:\n                return 1.0\n            else:\n                return kappaVal", "            if 1.0 < kappaVal < 1.1:\n                kappaVal = 1.0\n            return kappaVal", kind="keep")
+
+# ------------------------------------------------------------------ C07 (SCD)
+_scd = "total = total + float(self.chargePattern[m-1])*float(self.chargePattern[n-1])*np.power((m-n),0.5)"
+m("c07-exponent-1", ["C07"], S, _scd, _scd.replace("0.5)", "1)"))
+m("c07-exponent-neg", ["C07"], S, _scd, _scd.replace("0.5)", "-0.5)"))
+m("c07-m-plus-n", ["C07", "C05"], S, _scd, _scd.replace("(m-n)", "(m+n)"))
+m("c07-abs-product", ["C07", "C05"], S, _scd, "total = total + abs(float(self.chargePattern[m-1])*float(self.chargePattern[n-1]))*np.power((m-n),0.5)")
+m("c07-missing-div", ["C07"], S, "        return total/self.len\n", "        return total\n")
+m("c07-div-N2", ["C07"], S, "        return total/self.len\n", "        return total/(self.len*self.len)\n")
+m("c07-range-skip-last", ["C07", "C05"], S, "for m in range(2,self.len+1):", "for m in range(2,self.len):")
+m("c07-inner-skip-adjacent", ["C07", "C05"], S, "for n in range(1,m):", "for n in range(1,m-1):")
+m("c07-offbyone-index", ["C07"], S, _scd, _scd.replace("self.chargePattern[n-1]", "self.chargePattern[n]"))
+m("c07-init-1", ["C07"], S, "        total=0\n        for m in range(2,self.len+1):", "        total=1\n        for m in range(2,self.len+1):")
+m("c07-keep-zero-based", ["C07"], S, "        for m in range(2,self.len+1):\n            for n in range(1,m):\n                " + _scd,
+  "        for i in range(1, self.len):\n            for j in range(0, i):\n                total += self.chargePattern[i] * self.chargePattern[j] * (i - j) ** 0.5", kind="keep")
+m("c07-keep-swapped-roles", ["C07"], S, "        for m in range(2,self.len+1):\n            for n in range(1,m):\n                " + _scd,
+  "        for n in range(1, self.len):\n            for m in range(n + 1, self.len + 1):\n                total = total + self.chargePattern[n-1] * self.chargePattern[m-1] * np.sqrt(m - n)", kind="keep")
+
+# ------------------------------------------------------------------ C09 (pH)
+m("c09-drop-C", ["C09"], S, "if res in ['E', 'D', 'Y', 'C']:", "if res in ['E', 'D', 'Y']:")
+m("c09-drop-R", ["C09"], S, "if res in ['K','R','H']:", "if res in ['K','H']:")
+m("c09-pka-R", ["C09"], A, "            'R': 12.5}", "            'R': 12.0}")
+m("c09-pka-C", ["C09"], A, "    return {'C': 8.5,", "    return {'C': 8.3,")
+m("c09-sign-flip-acid", ["C09"], S, "(negative_numerator / (1+np.power(10, (pKa_lookup[res] - pH))))", "(negative_numerator / (1+np.power(10, (pH - pKa_lookup[res]))))")
+m("c09-normalize-by-N", ["C09"], S, "                total = float(total)/countable_residues", "                total = float(total)/self.len")
+m("c09-total-mode-net", ["C09"], S, "        if mode == 'TOTAL':\n            negative_numerator=1.0", "        if mode == 'TOTAL':\n            negative_numerator=-1.0")
+m("c09-ph-ge-14-rejected", ["C09"], P, "        if pH > 14.0:", "        if pH >= 14.0:")
+m("c09-ph-neg-allowed", ["C09"], P, "        if pH < 0.0:", "        if pH < -1.0:")
+m("c09-wrapper-no-verify", ["C09"], P, "        if pH is not None:\n            self.__verify_pH(pH)\n\n        return self.SeqObj.NCPR(pH)", "        return self.SeqObj.NCPR(pH)")
+m("c09-threshold-0.2", ["C09"], S, "        threshold=0.02 #", "        threshold=0.2 #")
+m("c09-return-min", ["C09"], S, "            else:\n                return mid_pH\n", "            else:\n                return min_pH\n")
+m("c09-breakcount-stuck", ["C09"], S, "            breakcount=breakcount+1\n", "            breakcount=breakcount+0\n")
+m("c09-no-error-escape", ["C09"], S, "                errorcount=errorcount+1\n", "                errorcount=errorcount+0\n")
+m("c09-fer-no-pro", ["C09"], S, "return (self.charge_at_pH(pH, mode='TOTAL') + self.seq.count('P')) / (self.len + 0.0)", "return (self.charge_at_pH(pH, mode='TOTAL')) / (self.len + 0.0)")
+m("c09-fcr-net", ["C09"], S, "            return self.charge_at_pH(pH, mode='TOTAL') / (self.len + 0.0)", "            return self.charge_at_pH(pH) / (self.len + 0.0)")
+m("c09-charge-on-stale-mid", ["C09"], S, "            protein_charge = self.charge_at_pH(mid_pH, normalize=True)\n", "            protein_charge = self.charge_at_pH(min_pH, normalize=True)\n")
+m("c09-one-sided", ["C09"], S, "            elif protein_charge < -threshold:\n                max_pH = mid_pH", "            elif protein_charge < -threshold * 10:\n                max_pH = mid_pH")
+m("c09-keep-elif", ["C09"], S, "            if res in ['E', 'D', 'Y', 'C']:\n                total = total+(negative", "            elif res in ('C', 'Y', 'E', 'D'):\n                total = total+(negative", kind="keep")
+m("c09-keep-pow-op", ["C09"], S, "total = total+(1 / (1+np.power(10, (pH - pKa_lookup[res]))))", "total += 1.0 / (1 + 10 ** (pH - pKa_lookup[res]))", kind="keep")
